@@ -501,6 +501,68 @@ def snprintf_clause(prop, res):
         raise AnalysisBroken("R-PRINTF: only %d writes through d->buf found in snprntffuns.c (floor 4)" % res["stats"]["buffer_writes"])
 
 
+def asprintf_headroom(prop, res):
+    """gmp_asprintf_t keeps one byte of headroom for the terminating NUL (the macro's own ASSERT: alloc >= size + 1).  Every expansion of
+    GMP_ASPRINTF_T_NEED (d, n) decides with one comparison whether to grow; on the edge that does NOT grow, the comparison must entail
+    alloc >= size + n + 1 - otherwise n more bytes plus the NUL that __gmp_asprintf_final stores no longer fit ("allocates exactly
+    length + 1 bytes" presupposes the NUL lands inside the block)."""
+    import r_contract
+    F = res["findings"]
+    ex = sa.export(sa.cfg_built())
+    n = 0
+    for path, fn in ex.functions(lambda p: "/printf/" in p):
+        for b in fn["blocks"]:
+            t = b.get("term")
+            if not t or not t.get("cond") or len(b["succs"]) != 2 or "GMP_ASPRINTF_T_NEED" not in (t.get("m") or []):
+                continue
+            if "ASSERT" in (t.get("m") or []):
+                continue
+            c0 = _strip(sa.strip_expect(sa.effective_cond(t)))
+            if not (isinstance(c0, dict) and c0.get("k") == "binop" and c0["op"] in ("<", ">", "<=", ">=", "==", "!=")):
+                continue                   # the `while (0)` of the macro's do-block
+            # the macro's locals: alloc = d->alloc, newsize = d->size + n
+            alloc_v = new_v = None
+            for b2 in fn["blocks"]:
+                for el in b2["elems"]:
+                    if "GMP_ASPRINTF_T_NEED" not in (el.get("m") or []) or el["line"] != t.get("line", el["line"]):
+                        continue
+                    e = el["e"]
+                    if e.get("k") == "binop" and e["op"] == "=" and e["l"].get("k") == "var":
+                        r = _strip(e["r"])
+                        if isinstance(r, dict) and r.get("k") == "member" and r["field"] == "alloc":
+                            alloc_v = e["l"]["id"]
+                        if isinstance(r, dict) and r.get("k") == "binop" and r["op"] == "+" and any(
+                                isinstance(_strip(x), dict) and _strip(x).get("k") == "member" and _strip(x)["field"] == "size" for x in (r["l"], r["r"])):
+                            new_v = e["l"]["id"]
+            cond = sa.effective_cond(t)
+            n += 1
+            res["stats"]["asprintf_need_sites"] += 1
+            if alloc_v is None or new_v is None:
+                raise AnalysisBroken("R-PRINTF: cannot identify alloc / newsize in the GMP_ASPRINTF_T_NEED expansion at %s:%d" % (relpath(path), el["line"]))
+            # which successor grows?  the one that stores d->alloc
+            def stores_alloc(bid):
+                blk = sa.blocks_by_id(fn)[bid]
+                hit = []
+                for el in blk["elems"]:
+                    sa.walk(el["e"], lambda m_: hit.append(1) if m_.get("k") == "binop" and m_["op"] == "=" and _strip(m_["l"]).get("k") == "member"
+                            and _strip(m_["l"])["field"] == "alloc" else None)
+                return bool(hit)
+            s0, s1 = b["succs"]
+            grow_true = isinstance(s0, int) and stores_alloc(s0)
+            grow_false = isinstance(s1, int) and stores_alloc(s1)
+            if grow_true == grow_false:
+                raise AnalysisBroken("R-PRINTF: cannot tell the growing edge of GMP_ASPRINTF_T_NEED at %s:%d" % (relpath(path), t.get("line", 0)))
+            facts = r_contract.constraints(cond, not grow_true)       # truth value on the edge that skips the reallocation
+            need = r_contract.tadd(r_contract.tadd(r_contract.T(-1), r_contract.T(0, [(("v", alloc_v), 1)])), r_contract.T(0, [(("v", new_v), 1)]), -1)
+            if facts is None or not r_contract.implies([f for f in facts if f[0] != "ne"], need):
+                F.append(Finding(prop, "R-PRINTF", path, t.get("line", 0), fn["name"], "asprintf-headroom",
+                                 "in %s the test that skips the reallocation in GMP_ASPRINTF_T_NEED does not entail alloc >= size + n + 1: "
+                                 "when the output so far plus the new piece equals the allocation exactly, the terminating NUL of "
+                                 "__gmp_asprintf_final is stored one byte past the block" % fn["name"]))
+    if n < 3:
+        raise AnalysisBroken("R-PRINTF: only %d expansions of GMP_ASPRINTF_T_NEED found (floor 3)" % n)
+
+
 def run(prop="C18", tier="quick"):
     res = dict(findings=[], stats=collections.Counter(), samples=[], notes=[])
     F = res["findings"]
@@ -528,11 +590,12 @@ def run(prop="C18", tier="quick"):
     # ---- snprintf backend --------------------------------------------------------------------------
     snprintf_clause(prop, res)
     run_reset(prop, res)
+    asprintf_headroom(prop, res)
     # ---- asprintf sizes (R-ALLOC.size restricted to printf/) ----------------------------------------
     ra = r_alloc.run(prop=prop, tier=tier)
     F += [f for f in ra["findings"] if "/printf/" in f.file or "/scanf/" in f.file]
     res["stats"]["alloc_sites_printf"] = ra["stats"].get("allocator_sites", 0)
     res["stats"] = dict(res["stats"])
-    res["obligations"] = res["stats"]["table_slots"] + res["stats"]["buffer_writes"] * 2 + res["stats"].get("cursor_updates", 0) + res["stats"].get("reset_uses", 0)
+    res["obligations"] = res["stats"]["table_slots"] + res["stats"]["buffer_writes"] * 2 + res["stats"].get("cursor_updates", 0) + res["stats"].get("reset_uses", 0) + res["stats"].get("asprintf_need_sites", 0)
     res["exhaustive"] = True
     return res
